@@ -16,6 +16,7 @@
 #include <unistd.h>
 #include <signal.h>
 #include "cgns_io.h"
+#include "cgnslib.h"
 
 #define MAXF 16
 #define MAXH 4096
@@ -157,6 +158,21 @@ int main(void) {
         } else if (!strcmp(cmd, "pathadd")) {
             sscanf(line, "%*s %s", a[0]); unhex(a[0], buf);
             printf(cgio_path_add((char *)buf) ? "err other\n" : "ok\n");
+        } else if (!strcmp(cmd, "setpath") || !strcmp(cmd, "addpath") || !strcmp(cmd, "cfgset") || !strcmp(cmd, "cfgadd")) {
+            /* the mid-level setters of the search path (they only manipulate the cgio list): argument hex | - (empty) | NULL */
+            sscanf(line, "%*s %s", a[0]);
+            const char *arg = NULL;
+            if (strcmp(a[0], "NULL")) { unhex(a[0], buf); arg = (const char *)buf; }
+            int e = !strcmp(cmd, "setpath") ? cg_set_path(arg) : !strcmp(cmd, "addpath") ? cg_add_path(arg) :
+                    !strcmp(cmd, "cfgset") ? cg_configure(CG_CONFIG_SET_PATH, (void *)arg) : cg_configure(CG_CONFIG_ADD_PATH, (void *)arg);
+            printf(e ? "err other\n" : "ok\n");
+        } else if (!strcmp(cmd, "tryc")) {
+            /* a create that is expected to be refused (e.g. under a dangling link): the handle is not kept */
+            sscanf(line, "%*s %d %d %d %s", &fi, &p, &u, a[0]);
+            if (BAD(fi) || H(fi, p) < 0) { printf("err other\n"); continue; }
+            unhex(a[0], buf); double id;
+            if (cgio_create_node(F[fi].cgio, H(fi, p), (char *)buf, &id)) printf("err other\n");
+            else { cgio_release_id(F[fi].cgio, id); printf("ok\n"); }
         } else if (!strcmp(cmd, "pathdel")) {
             printf(cgio_path_delete(NULL) ? "err other\n" : "ok\n");
         } else if (!strcmp(cmd, "dbg") || !strcmp(cmd, "decoy")) {
